@@ -1,6 +1,6 @@
 """C07 -- data that can no longer be refreshed expires; stopping a socket removes its data."""
 from .fsm_common import fsm_job
-from .sync_common import sync_job
+from .sync_common import *
 
 INFO = {"outside": "wip", "assumptions": []}
 MANIFEST = {"text": "wip", "note": "wip"}
@@ -8,5 +8,11 @@ MANIFEST = {"text": "wip", "note": "wip"}
 
 def jobs(tier):
     B = 8 if tier == "quick" else 12
-    return [fsm_job("fsm_expiry_b%d" % B, "ASSERT_C07", B, extra=["CLOCK_MAY_FAIL"]),
-            fsm_job("stop_removes_data", "ASSERT_C07", 6, entry="harness_stop")]
+    J = [fsm_job("fsm_expiry_b%d" % B, "ASSERT_C07", B, extra=["CLOCK_MAY_FAIL"], timeout=2400),
+         fsm_job("stop_removes_data", "ASSERT_C07", 6, entry="harness_stop")]
+    fam = [[CR, EOD], [CR, V4, EOD], [CR, KEY, EOD]] + fam_after_cr() + fam_after_cr([V4]) + fam_openers()
+    if tier == "thorough":
+        fam += fam_complete(tier)[3:] + fam_after_cr([V4, KEY])
+    for sk in fam:
+        J.append(sync_job("ASSERT_C07", sk, extra=["NO_TABLE_FAIL"] if len(sk) >= 6 else None, timeout=2400 if len(sk) >= 6 else 900))
+    return J
